@@ -14,3 +14,7 @@ pub assume_specification<T> [Option::<T>::or] (a: Option<T>, b: Option<T>) -> (r
 
 pub assume_specification<T, E> [Result::<T, E>::unwrap_or] (a: Result<T, E>, d: T) -> (r: T)
     ensures r == (match a { Ok(v) => v, Err(_) => d });
+
+pub assume_specification<T, U, F: FnOnce(T) -> U> [Option::<T>::map_or] (a: Option<T>, d: U, f: F) -> (r: U)
+    requires a matches Some(x) ==> f.requires((x,))
+    ensures a is None ==> r == d, a matches Some(x) ==> f.ensures((x,), r);
